@@ -128,6 +128,11 @@ def havoc_value(E, name, v):
         return E.fresh_z(name, v.ty)
     if isinstance(v, X):
         return E.fresh_z(name, XR)
+    if isinstance(v, Frame):
+        # a table local rebound inside the loop: same shape, unknown contents (pinned again by the invariant)
+        cols = {c: E.new_arr(v.n, a.ty, kind='series', base='%s.%s@loop' % (name, c)) for c, a in v.cols.items()}
+        f = Frame(v.ident, v.n, cols)
+        return f
     if isinstance(v, Arr):
         # a rebound array local: same storage, unknown window
         raise Unsupported('array local %s rebound inside a symbolic loop' % name)
